@@ -157,6 +157,7 @@ func c19objects() []c19obj {
 				{"Done+Err", func() { _ = d.Done(); _ = d.Err() }},
 				{"Deadline", func() { _, _ = d.Deadline() }},
 				{"wait-expiry", func() { zzvsched.Sleep(3 * time.Millisecond); _ = d.Err() }},
+				{"re-arm-at-expiry", func() { zzvsched.Sleep(time.Millisecond); d.Set(zzvsched.Now().Add(5 * time.Millisecond)) }},
 			}
 		}},
 		{"dpipe", func() []c19op {
@@ -297,7 +298,7 @@ func c19objects() []c19obj {
 	}
 }
 
-func c19counts() []int { return []int{6, 5, 6, 8, 4, 3, 8, 3, 2} }
+func c19counts() []int { return []int{6, 6, 6, 8, 4, 3, 8, 3, 2} }
 
 func init() {
 	register(&Check{ID: "C19",
